@@ -280,12 +280,13 @@ std::vector<std::pair<T, T>> make_set(const std::string& set, uint32_t g) {
         add(a, a + sz);
         add(a - sz, a);
       }
-  } else if (set == "gran") { // every start offset mod g (both signs) x sizes 0..3g+1
+  } else if (set.compare(0, 4, "gran") == 0) { // gran<m>: every start offset mod g (both signs) x sizes 0..m*g+1 (default m = 3)
+    const long m = set.size() > 4 ? atol(set.c_str() + 4) : 3;
     long from = std::is_signed<T>::value && g <= 16 ? -(long)g : 0;
     long to = std::is_signed<T>::value ? (long)g : 2 * (long)g;
     if (g > 16) to = (long)g;
     for (long s = from; s < to; s++)
-      for (long sz = 0; sz <= 3 * (long)g + 1; sz++) add(s, s + sz);
+      for (long sz = 0; sz <= m * (long)g + 1; sz++) add(s, s + sz);
   } else {
     mc::fail("harness: unknown input set '%s'", set.c_str());
   }
@@ -314,7 +315,7 @@ BatchPlan make_plan(const mc::Params& P) {
   long per_g = (long)(pl.modes.size() * pl.mts.size() * pl.mis.size() * pl.waits.size());
   size_t fixed = 0;
   for (unsigned long g : pl.gs) {
-    if (pl.set == "gran" || !fixed) fixed = make_set<T>(pl.set, (uint32_t)g).size();
+    if (pl.set.compare(0, 4, "gran") == 0 || !fixed) fixed = make_set<T>(pl.set, (uint32_t)g).size();
     pl.total += per_g * (long)fixed;
   }
   long per = P("per", 150);
@@ -347,7 +348,7 @@ void run_batch(dispenso::ThreadPool& pool, const mc::Params& P, const BatchPlan&
   std::string first;
   std::vector<std::pair<T, T>> in;
   for (unsigned long g : pl.gs) {
-    if (in.empty() || pl.set == "gran") in = make_set<T>(pl.set, (uint32_t)g);
+    if (in.empty() || pl.set.compare(0, 4, "gran") == 0) in = make_set<T>(pl.set, (uint32_t)g);
     for (auto& mode : pl.modes)
       for (unsigned long mt : pl.mts)
         for (unsigned long mi : pl.mis)
@@ -711,7 +712,7 @@ const char* cont_name(char c) { return c == 'v' ? "vector(random access)" : c ==
 
 } // namespace
 
-// params: type i8..u64; set full8|sz<k>|edge|huge|gran; mode/mt/mi/g/wait dotted lists (all combinations are run);
+// params: type i8..u64; set full8|sz<k>|edge|huge|gran[<m>]; mode/mt/mi/g/wait dotted lists (all combinations are run);
 // n pool threads; nest 0|1|2; per = calls per execution (the batch is split by mc::choose); check 12|13; yield; cts=1 ConcurrentTaskSet (i32)
 MC_HARNESS(pf_batch) {
   std::string t = P.s("type", "i32");
